@@ -1,8 +1,8 @@
 SPECIFICATION Spec
 CONSTANTS
-  Fmt = "xml"
+  Fmt = "o5m"
   MaxFaults = 2
-  WithTrunc = TRUE
+  WithTrunc = FALSE
   TruncAfterFault = FALSE
   ExportHist = TRUE
 INVARIANTS TypeOK Applicable DistinctPositions TruncOK Export
